@@ -74,7 +74,7 @@ def gen_case(rng, tier, idx):
     if shape[0] == "e3":
         init = rng.choice([0, 5, 7])
     case = {"action": act, "shape": list(shape), "init_bits": init if rng.random() < 0.8 else 0,
-            "cycles": 200 if tier == "quick" else 600}
+            "cycles": (200 if tier == "quick" else 600) * (10 if rng.random() < 0.04 else 1)}
     if act == "RES":
         case["res"] = rng.choice(["ResRAW0", "ResRAWL", "ResR0WA", "ResR0W0"])
         case["widths"] = [rng.randint(0, 5), rng.randint(0, 5), rng.randint(0, 5)]
